@@ -208,3 +208,11 @@ def run(ctx):
             # functions without an Option result at this level (Vec-returning builders): nothing to decide
             pass
         rep.check(r3, not bad, fid + ':no-address-dependent-silence', '%d branches on address/port values; branches where one side can only be silent: %s' % (n, bad), '%s:%d' % (f.file, f.line))
+
+    # the address-bearing records must stay well-formed for either IP version and for every port: their embedded
+    # lengths follow the bytes actually built (C14 rr:rdlen, C16-R4 XDR padding) - a fixed length would make the
+    # answer disappear or break for some addresses only
+    from vlib.runner import borrow
+    for rid_, inst in borrow(ctx, 'C14', lambda r_, k_: k_ in ('rr:rdlen', 'rr:rdata')) + borrow(ctx, 'C16', lambda r_, k_: k_ in ('bytes-then-pad', 'pad-count', 'length-word')):
+        rep.check(r3, inst['ok'], '%s:%s' % (rid_, inst['key']), inst['detail'], inst['loc'])
+
